@@ -154,11 +154,19 @@ def _graph(c):
     return [{'type': 'Strain', 'p': p, 'src': None}]
 
 
+class InputModified(Exception):
+    pass
+
+
 def run_scaling(c, volts):
     """apply the scaling directly or through a generated file; returns float64 array"""
     v = np.array(volts, dtype=np.float64)
     if not c.get('via_file'):
-        return np.asarray(_scale_obj(c).scale(v.copy()), dtype=np.float64)
+        arr = v.copy()
+        out = np.array(_scale_obj(c).scale(arr), dtype=np.float64)
+        if arr.tobytes() != v.tobytes():
+            raise InputModified('scale() overwrote its input array: %r -> %r' % (v[:3], arr[:3]))
+        return out
     from nptdms import TdmsFile
     p = make_path('g', 'c')
     seg = {'be': False, 'interleaved': False,
@@ -166,7 +174,15 @@ def run_scaling(c, volts):
            'active': [[p, 'f64', len(v)]], 'nchunks': 1, 'data': {p: [v.tobytes()]}}
     data, _i, _l = encode_file({'segments': [seg]})
     tf = TdmsFile.read(io.BytesIO(data))
-    return np.asarray(tf['g']['c'][:], dtype=np.float64)
+    ch = tf['g']['c']
+    first = np.array(ch.read_data(), dtype=np.float64)
+    again = np.array(ch.read_data(), dtype=np.float64)
+    raw = np.asarray(ch.raw_data)
+    if raw.tobytes() != v.tobytes():
+        raise InputModified('raw_data after a scaled read is %r, the file holds %r' % (raw[:3], v[:3]))
+    if first.tobytes() != again.tobytes():
+        raise InputModified('second scaled read %r differs from the first %r' % (again[:3], first[:3]))
+    return np.asarray(ch[:], dtype=np.float64)
 
 
 def check(case, rec):
@@ -200,6 +216,9 @@ def check(case, rec):
         return check_poly_table(case, rec)
     try:
         got = run_scaling(c, volts)
+    except InputModified as e:
+        rec.violation('%s:raw_modified' % kind, str(e))
+        return
     except Exception as e:      # noqa
         rec.violation('%s:raised' % kind, 'parameters %r inputs %r: %s' % (
             {k: v for k, v in c.items() if k not in ('T', 'eps', 'lnR')}, truth, describe_exc(e)), key=exc_key(e))
